@@ -292,3 +292,14 @@ def _direct_loop(loop, node):
         if isinstance(n, (ast.For, ast.While)) and any(x is node for x in ast.walk(n)):
             return False
     return True
+
+
+def run_thorough(ctx):
+    """Package-wide sweep of R-CM: every @contextmanager generator of the package restores its state in finally."""
+    ix = ctx.index
+    R = 'C03.c+'
+    ctx.describe(R, 'package-wide: context managers restore their state in finally')
+    for m, node, construct in common.contextmanager_funcs(ix):
+        n = common.check_contextmanager(ctx, R, m, node, construct)
+        if not n:
+            ctx.ob(R, construct, 'nothing stored before the yield needs restoring', True, nontrivial=False)
